@@ -58,7 +58,7 @@ def match_known(v, findings):
 def write_replay(prop, spec, rec, v, refs, min_info):
     rdir = os.environ.get("VERIF_REPLAY_DIR") or os.path.join(VERIF, "replays")
     os.makedirs(rdir, exist_ok=True)
-    path = os.path.join(rdir, f"{prop}-{spec.get('seed')}.json")
+    path = os.path.join(rdir, f"{prop}-{spec.get('seed')}-{v['clause']}-{v['op']}.json")
     keys = set()
     for _, ops in model.spec_clients(spec):
         keys.update(k for k in model.client_keys(ops, spec) if k)
